@@ -125,6 +125,11 @@ func runC13(c *Ctx, r *Report) {
 	oneSlabPerWorker(c, r)
 
 	c13r6(c, r)
+	c13r7(c, r)
+	c13r8(c, r)
+	c13r9(c, r)
+	c13r8(c, r)
+	c06r6(c, r) // items never change after they have been read
 	c06r1(c, r) // items never change after they have been read
 
 	if c.thorough() {
@@ -730,4 +735,165 @@ func c13r3(c *Ctx, r *Report) {
 		}
 	}
 
+}
+
+// c13r7: the matcher workers do not write into published items.
+func c13r7(c *Ctx, r *Report) {
+	l := c.L
+	r.rule("C13-R7", "B (writer census over the call graph of the workers)", "P1",
+		"no function reachable from the worker goroutines of Matcher.scan stores into a field of an Item or of its util.Chars that was not allocated by that function: published items are shared by pointer between snapshots, the chunk list copies them (ChunkList.Snapshot) without synchronising with the workers",
+		"a lazily memoised field written by a worker races with the copy the coordinator takes of the same chunk under --tail: torn memo (length known but 0) kept for good, data race on shared memory")
+	scan := l.Fn("fzf", "(*Matcher).scan")
+	tItem := l.Named("fzf", "Item")
+	tChars := l.Named("util", "Chars")
+	if scan == nil || tItem == nil || tChars == nil {
+		r.unest("anchors", token.NoPos, nil, "anchors Matcher.scan / Item / util.Chars", "cannot resolve")
+		return
+	}
+	// worker closures: functions started by `go` in scan
+	var roots []*ssa.Function
+	eachInstr(scan, func(in ssa.Instruction) {
+		if g, ok := in.(*ssa.Go); ok {
+			if fns, ok := resolveFuncs(g.Call.Value); ok {
+				roots = append(roots, fns...)
+			}
+		}
+	})
+	r.floor("worker goroutines of scan", len(roots), 1)
+	cg := l.CallGraph()
+	seen := map[*ssa.Function]bool{}
+	var work []*ssa.Function
+	for _, f := range roots {
+		work = append(work, f)
+	}
+	for len(work) > 0 {
+		f := work[len(work)-1]
+		work = work[:len(work)-1]
+		if f == nil || seen[f] || f.Blocks == nil {
+			continue
+		}
+		seen[f] = true
+		if n := cg.Nodes[f]; n != nil {
+			for _, e := range n.Out {
+				if g := e.Callee.Func; g != nil && g.Pkg != nil && isModulePkg(g.Pkg.Pkg) {
+					work = append(work, g)
+				}
+			}
+		}
+		for _, an := range f.AnonFuncs {
+			work = append(work, an)
+		}
+	}
+	isShared := func(t types.Type) bool {
+		t = deref(t)
+		return types.Identical(t, tItem) || types.Identical(t, tChars)
+	}
+	nFn := 0
+	var fns []*ssa.Function
+	for f := range seen {
+		fns = append(fns, f)
+	}
+	sort.Slice(fns, func(i, j int) bool { return fns[i].String() < fns[j].String() })
+	for _, f := range fns {
+		nFn++
+		eachInstr(f, func(in ssa.Instruction) {
+			st, ok := in.(*ssa.Store)
+			if !ok {
+				return
+			}
+			fa, ok := st.Addr.(*ssa.FieldAddr)
+			if !ok || !isShared(fa.X.Type()) {
+				return
+			}
+			// base of the object
+			base := fa.X
+			for {
+				if f2, ok := base.(*ssa.FieldAddr); ok {
+					base = f2.X
+					continue
+				}
+				break
+			}
+			if a, ok := base.(*ssa.Alloc); ok && a.Parent() == f {
+				return // an object of this call (a temporary Chars, a Result under construction)
+			}
+			fld := deref(fa.X.Type()).Underlying().(*types.Struct).Field(fa.Field)
+			key := fmt.Sprintf("%s:store %s.%s", relName(f), deref(fa.X.Type()).(*types.Named).Obj().Name(), fld.Name())
+			r.bad(key, st.Pos(), f, "workers only read published items", "a worker writes "+fld.Name()+" of a published item (lazy memo) while ChunkList.Snapshot may be copying that item")
+		})
+	}
+	r.note(fmt.Sprintf("functions reachable from the scan workers: %d", nFn))
+	r.floor("functions reachable from the scan workers", nFn, 10)
+}
+
+// c13r8: the writer of a chunk runs under the list's lock.
+func c13r8(c *Ctx, r *Report) {
+	l := c.L
+	r.rule("C13-R8", "C (lockset at call sites of the owned object's writer)", "P1",
+		"Chunk has no lock of its own: its fields are written only by Chunk.push (and by ChunkList.Snapshot on private copies, C13-R6), and every call of Chunk.push is made while ChunkList.mutex is held — the same lock under which Snapshot copies the last chunk",
+		"the item builder fills a slot while Snapshot copies the chunk: lost or half-built items, two pushers on one slot (index out of range)")
+	push := l.Fn("fzf", "(*Chunk).push")
+	tChunk := l.Named("fzf", "Chunk")
+	if push == nil || tChunk == nil {
+		r.unest("anchors", token.NoPos, nil, "anchors Chunk.push / Chunk", "cannot resolve")
+		return
+	}
+	la := analyseLocks(l, map[string]bool{"Terminal": true})
+	nCalls := 0
+	for _, fn := range l.AllFuncs() {
+		eachInstr(fn, func(in ssa.Instruction) {
+			call, ok := in.(*ssa.Call)
+			if !ok || !callIs(call.Common(), push) {
+				return
+			}
+			nCalls++
+			held := la.sets[fn][in]
+			ok2 := false
+			var ks []string
+			for k := range held {
+				ks = append(ks, k)
+				if strings.HasPrefix(k, "ChunkList.") {
+					ok2 = true
+				}
+			}
+			sort.Strings(ks)
+			r.check(ok2, relName(fn)+":Chunk.push under the list lock", in.Pos(), fn, "Chunk.push is called with ChunkList.mutex held", fmt.Sprintf("Chunk.push is called with locks %v held: the slot is filled outside the list lock", ks))
+		})
+	}
+	r.floor("call sites of Chunk.push", nCalls, 1)
+	// writers of Chunk fields
+	for _, fn := range l.AllFuncs() {
+		if fn.Pkg != l.pkg("fzf") {
+			continue
+		}
+		eachInstr(fn, func(in ssa.Instruction) {
+			st, ok := in.(*ssa.Store)
+			if !ok {
+				return
+			}
+			base := st.Addr
+			isChunkField := false
+			for {
+				switch x := base.(type) {
+				case *ssa.FieldAddr:
+					if types.Identical(deref(x.X.Type()), tChunk) {
+						isChunkField = true
+					}
+					base = x.X
+					continue
+				case *ssa.IndexAddr:
+					base = x.X
+					continue
+				}
+				break
+			}
+			if !isChunkField {
+				return
+			}
+			if a, ok := base.(*ssa.Alloc); ok && a.Parent() == fn {
+				return // a private copy
+			}
+			r.check(fn == push, relName(fn)+":writes a Chunk field", st.Pos(), fn, "only Chunk.push writes into a chunk that is not a private copy", "a chunk shared with readers is written outside Chunk.push")
+		})
+	}
 }
